@@ -402,5 +402,5 @@ def space_of(sc_kwargs):
         n *= len(fixed[i]) if i in fixed else 256
     for f in sc_kwargs.get('flags') or []:
         if f == 'sym': n *= 2
-    if str(sc_kwargs.get('variant', '')).startswith('x86-rt'): n *= 8     # cpu_avx2, cpu_sse42, cell_already_set
+    if str(sc_kwargs.get('variant', '')).startswith('x86-rt'): return None     # scheduling variables are created on demand: no fixed input space
     return n
